@@ -17,7 +17,6 @@ simk::define_interposers!();
 #[global_allocator]
 static ALLOC: slog::CountingAlloc = slog::CountingAlloc;
 
-const TMPD: &str = "/verif/work/ap";
 
 fn vchild() -> String {
     format!("{}/vchild", std::env::current_exe().unwrap().parent().unwrap().display())
@@ -85,8 +84,8 @@ fn input_lines(n: usize) -> Vec<u8> {
 }
 
 fn tmpfile(name: &str) -> String {
-    let _ = fs::create_dir_all(TMPD);
-    format!("{}/{}", TMPD, name)
+    let _ = fs::create_dir_all(tmpd());
+    format!("{}/{}", tmpd(), name)
 }
 
 fn sorted_lines(b: &[u8]) -> Vec<String> {
@@ -97,7 +96,7 @@ fn sorted_lines(b: &[u8]) -> Vec<String> {
 
 fn stage_reports(out: &mut Vec<String>, pids: &[u32]) {
     for pid in pids {
-        let p = format!("{}/{}.json", VR, pid);
+        let p = format!("{}/{}.json", vr(), pid);
         // a stage that failed to exec never reports
         let mut rep = None;
         for _ in 0..60 {
@@ -128,7 +127,7 @@ fn stage_reports(out: &mut Vec<String>, pids: &[u32]) {
                 "mask_empty": u64::from_str_radix(r["sigblk"].as_str().unwrap_or("0"), 16).unwrap_or(1) == 0,
                 "sigpipe_ignored": u64::from_str_radix(r["sigign"].as_str().unwrap_or("0"), 16).unwrap_or(0) & (1 << 12) != 0}).to_string());
         }
-        let _ = fs::remove_file(format!("{}/{}.log", VR, pid));
+        let _ = fs::remove_file(format!("{}/{}.log", vr(), pid));
     }
 }
 
@@ -421,8 +420,8 @@ fn run_handle(v: &Value, out: &mut Vec<String>) {
         let st = fs::read_to_string(format!("/proc/{}/stat", pid)).unwrap_or_default();
         let state = st.rsplit(')').next().and_then(|r| r.split_whitespace().next().map(|s| s.to_string())).unwrap_or("gone".into());
         alive.push(json!([pid, state]));
-        let _ = fs::remove_file(format!("{}/{}.json", VR, pid));
-        let _ = fs::remove_file(format!("{}/{}.log", VR, pid));
+        let _ = fs::remove_file(format!("{}/{}.json", vr(), pid));
+        let _ = fs::remove_file(format!("{}/{}.log", vr(), pid));
     }
     out.push(json!({"e":"after_drop","children":alive}).to_string());
 }
@@ -596,7 +595,7 @@ fn run_builder(v: &Value, out: &mut Vec<String>) {
         // the child's report (argv / environ / cwd)
         let mut rep = json!({"have":false,"argv":[],"env":[],"cwd":""});
         for pid in &pids {
-            let p = format!("{}/{}.json", VR, pid);
+            let p = format!("{}/{}.json", vr(), pid);
             for _ in 0..100 {
                 if let Ok(s) = fs::read_to_string(&p) {
                     if let Ok(rj) = serde_json::from_str::<Value>(&s) {
@@ -630,8 +629,7 @@ fn run_builder(v: &Value, out: &mut Vec<String>) {
 }
 
 fn run_one(v: &Value, out: &mut Vec<String>) {
-    let _ = fs::create_dir_all(TMPD);
-    let _ = fs::create_dir_all(VR);
+    let _ = fs::create_dir_all(tmpd());
     let kind = v["kind"].as_str().unwrap();
     out.push(json!({"e":"reset","id":v["id"],"kind":kind,"cfg":v,"base":fd_table()}).to_string());
     slog::reset();
@@ -657,8 +655,7 @@ fn main() {
     let args: Vec<String> = std::env::args().collect();
     slog::init();
     slog::install();
-    let _ = fs::remove_dir_all(VR);
-    let _ = fs::create_dir_all(VR);
+    begin_run();
     let mut outf = std::io::BufWriter::new(File::create(&args[2]).unwrap());
     let mut n = 0;
     let mut hangs = 0;
@@ -684,6 +681,7 @@ fn main() {
         }
     }
     outf.flush().unwrap();
+    end_run();
     let summary = format!("api_replay: {} scenarios, interposed calls seen: {}", n, simk::hooks::SEEN.load(std::sync::atomic::Ordering::Relaxed));
     let _ = fs::write(format!("{}.summary", &args[2]), &summary);
     eprintln!("{}", summary);
